@@ -139,7 +139,7 @@ fn classify(op: &Op, model: &[MapModel; 2]) -> String {
 }
 
 /// Body run on the watched thread: replay the history on fresh real maps and the model.
-fn replay(history: Vec<Op>, p: Arc<Mutex<Progress>>, out_model: Arc<Mutex<Option<[MapModel; 2]>>>) {
+fn replay(history: Vec<Op>, p: Arc<Mutex<Progress>>, out_model: Arc<Mutex<Option<([MapModel; 2], String)>>>) {
     let mut real = initial_real();
     let mut model = initial_model();
     let fail = |p: &Arc<Mutex<Progress>>, e: String| {
@@ -200,15 +200,40 @@ fn replay(history: Vec<Op>, p: Arc<Mutex<Progress>>, out_model: Arc<Mutex<Option
         }
         p.lock().unwrap().done = i + 1;
     }
-    *out_model.lock().unwrap() = Some(model);
+    p.lock().unwrap().at = "taking the implementation-state fingerprint (Debug of every handle, probe insert/remove through every handle)".into();
+    let fp = real_fingerprint(&real);
+    *out_model.lock().unwrap() = Some((model, fp));
     p.lock().unwrap().finished = true;
+}
+
+/// Fingerprint of the REAL handles, used only in the de-duplication key (never compared with the model).
+/// The contents of every map are compared with the model after every operation, so what the model key cannot see is
+/// (1) anything else the maps carry (lock poisoning; whatever a future field would add) — taken from the derived `Debug` of every
+/// handle — and (2) which handles share one map: an operation that silently un-shares a clone (or shares two independent maps)
+/// leaves all contents model-equal and shows only when a later write through one handle is (not) seen through the other.
+/// Histories are re-executed from scratch, so the sharing relation is probed destructively after the last operation: a probe
+/// URL is inserted through each handle in turn, the handles that see it are recorded, and it is removed again.
+fn real_fingerprint(real: &[RelayMap]) -> String {
+    let probe: RelayUrl = "https://probe.relay.test./".parse().unwrap();
+    let mut fp = String::new();
+    for (h, m) in real.iter().enumerate() {
+        fp.push_str(&format!("h{h}={m:?};"));
+    }
+    for (h, m) in real.iter().enumerate() {
+        m.insert(probe.clone(), Arc::new(RelayConfig::new(probe.clone(), None)));
+        let seen_by: Vec<usize> = (0..real.len()).filter(|&j| real[j].contains(&probe)).collect();
+        m.remove(&probe);
+        let left_in: Vec<usize> = (0..real.len()).filter(|&j| real[j].contains(&probe)).collect();
+        fp.push_str(&format!("write-through-h{h}-seen-by{seen_by:?}-left-in{left_in:?};"));
+    }
+    fp
 }
 
 static DEADLOCKS: AtomicU64 = AtomicU64::new(0);
 const MAX_ABANDONED: u64 = 64;
 
 enum Outcome {
-    Completed([MapModel; 2]),
+    Completed([MapModel; 2], String),
     Wrong(String),
     Blocked { op_index: usize, at: String },
     Panicked(String),
@@ -239,11 +264,12 @@ fn run_watched(history: &[Op]) -> (Outcome, String) {
     if !g.finished {
         return (Outcome::Wrong("worker neither finished nor blocked".into()), class);
     }
-    (Outcome::Completed(out.lock().unwrap().take().expect("model")), class)
+    let (m, fp) = out.lock().unwrap().take().expect("model");
+    (Outcome::Completed(m, fp), class)
 }
 
-fn state_key(m: &[MapModel; 2]) -> String {
-    format!("{m:?}")
+fn state_key(m: &[MapModel; 2], real_fp: &str) -> String {
+    format!("{m:?} || {real_fp}")
 }
 
 fn exec(ctx: &Ctx, history: &[Op]) -> Option<Step<String>> {
@@ -252,11 +278,11 @@ fn exec(ctx: &Ctx, history: &[Op]) -> Option<Step<String>> {
     }
     let (o, class) = run_watched(history);
     match o {
-        Outcome::Completed(m) => {
+        Outcome::Completed(m, fp) => {
             if !history.is_empty() {
                 ctx.eval(&class, "ok");
             }
-            Some(Step { key: state_key(&m), expand: true })
+            Some(Step { key: state_key(&m, &fp), expand: true })
         }
         Outcome::Wrong(e) => {
             ctx.discrepancy(None, &e, history);
@@ -315,7 +341,7 @@ fn menu(_h: &[Op]) -> Vec<Op> {
 
 fn main() {
     let ctx = Ctx::from_args("C43", Level::ModelChecking);
-    ctx.set_rule("BFS over operation histories of 3 handles (A, clone of A, independent B = {url2, url3}) with re-execution from scratch; menu of 40 operations (insert 4 urls x 2 configs and remove 4 urls on A and B, with_auth_token 2 tokens on A and B, one insert/remove/token through the clone, extend for all 9 ordered handle pairs); after every operation all handles are observed; states de-duplicated by the model contents of the two maps (handles are fixed, RelayMap has no other state: Arc identities of configs are not observable through the API used); distinct = (operation class) x (ok | blocked)");
+    ctx.set_rule("BFS over operation histories of 3 handles (A, clone of A, independent B = {url2, url3}) with re-execution from scratch; menu of 40 operations (insert 4 urls x 2 configs and remove 4 urls on A and B, with_auth_token 2 tokens on A and B, one insert/remove/token through the clone, extend for all 9 ordered handle pairs); after every operation all handles are observed; states de-duplicated by the model contents of the two maps AND a fingerprint of the real handles (Debug output of every handle — contents, lock poison flag — and the sharing relation between the handles, probed after the last operation by inserting and removing a probe URL through each handle and recording which handles see it), so two histories are merged only if the implementation is in the same state too; Arc identities of the stored configs are not part of the key (no operation of RelayMap can act on them); distinct = (operation class) x (ok | blocked)");
     ctx.assume("a worker thread asleep in a futex wait outside the scheduler's gates for > 1 ms, still not finished 30 ms later, and blocking at the same operation in a second execution, is blocked forever (single thread, no other lock holder exists)");
     let depth = ctx.pick(3, 4);
     ctx.bound("max_depth", depth);
